@@ -44,6 +44,8 @@ def configs(tier):
     from vp.checks import c10_cpl
     for c in c10_cpl.configs(tier):
         if c['kclass'] == 'k1': out.append(dict(c, part='cpl_restore', factory='cpl-restore'))
+    from vp.checks import c10_save
+    for c in c10_save.configs(tier): out.append(dict(c, factory='cpl-saved-state'))
     return out
 
 # ------------------------------------------------------------------------------------------ helpers (both worlds)
@@ -350,6 +352,12 @@ def _world():
     return _WORLD
 
 def job(cfg):
+    if cfg.get('part') == 'saveblock':
+        from vp.checks import c10_save
+        r = c10_save.job(cfg)
+        return {'paths': r['paths'], 'obl': r['obl'], 'solver_s': r['solver_s'], 'sat': [s_ for s_ in r['sat'] if s_.get('prop') == 'C07'],
+                'unknown': [u for u in r['unknown'] if ' W' in u], 'errors': r['errors'], 'reach': 1 if r['reach'] else 0,
+                'sample': (r['samples'][0] if r['samples'] else None)}
     if cfg.get('part') == 'cpl_restore':
         # the scaling cpl hands to the KKT solver when it retries after restoring its saved state (harness of vp/checks/c10_cpl.py)
         from vp.checks import c10_cpl
@@ -435,7 +443,11 @@ def replay_on_build(path):
     return None, 'not reproduced (precond_ok=%s)' % d.get('precond_ok')
 
 def replay_main(path):
-    if json.load(open(path)).get('cfg', {}).get('part') == 'cpl_restore':
+    part_ = json.load(open(path)).get('cfg', {}).get('part')
+    if part_ == 'saveblock':
+        from vp.checks import c10_save
+        rep, why = c10_save.replay_on_build(path)
+    elif part_ == 'cpl_restore':
         from vp.checks import c10_cpl
         rep, why = c10_cpl.replay_on_build(path)
     else:
@@ -468,7 +480,10 @@ def main(tier):
             if key in seen: seen[key] += 1; continue
             seen[key] = 1
             rp = common.write_replay('C07', json.dumps(cfg, sort_keys=True) + s['label'], {'property': 'C07', 'cfg': cfg, 'label': s['label'], 'model': s['model']})
-            if cfg.get('part') == 'cpl_restore':
+            if cfg.get('part') == 'saveblock':
+                from vp.checks import c10_save
+                rep, why = c10_save.replay_on_build(rp)
+            elif cfg.get('part') == 'cpl_restore':
                 from vp.checks import c10_cpl
                 rep, why = c10_cpl.replay_on_build(rp)
             else:
